@@ -86,6 +86,18 @@ Flat ==
     count  |-> FlatI(LAMBDA i : CellW(CountAxes, i), IdxCount),
     w2     |-> FlatI(LAMBDA i : CellW2(CountAxes, i), IdxCount) ]
 
+\* overlap tensors of a response whose LAST dimension is MR: one extra axis b over the
+\* items of that dimension.  overlap[.., b] = weight of the respondents of the cell who
+\* SELECTED item b; valid_overlap[.., b] = ... who are NOT MISSING on item b.
+OvDim == ND
+OvCell(idx, b, valid) ==
+  SumResp(LAMBDA k : IF Consistent(k.p, CountAxes, idx)
+                        /\ (IF valid THEN k.p[VarOf(OvDim)][b] # MIS ELSE k.p[VarOf(OvDim)][b] = SEL)
+                     THEN (IF Weighted THEN k.w ELSE 1) ELSE 0)
+FlatOv(valid) ==
+  FlattenSeq([t \in 1..Len(IdxCount) |->
+                [b \in 1..Dims[OvDim].n |-> OvCell(IdxCount[t], b, valid)]])
+
 FlatY ==
   [ vcu    |-> FlatI(CellNV, IdxAll),
     vcw    |-> FlatI(CellWV, IdxAll),
